@@ -44,14 +44,19 @@ def full_data(kn, l):
     return d
 
 
-def restore(kn, l, chan, scratch):
+def restore(kn, l, chan, scratch, variant=0):
     if chan in ("save_gz", "save_plain"):
         gz = chan == "save_gz"
         r = X.make(kn, factor=1)
         if kn.startswith("bal:"):
             names = [os.path.join(scratch, f"c{i}.pickle") for i in range(len(l.learners))]
-            l.save(names, compress=gz)
-            r.load(names, compress=gz)
+            if variant % 2:
+                # fname given as a function of the child learner (the documented way)
+                l.save(lambda c: names[l.learners.index(c)], compress=gz)
+                r.load(lambda c: names[r.learners.index(c)], compress=gz)
+            else:
+                l.save(names, compress=gz)
+                r.load(names, compress=gz)
         else:
             f = os.path.join(scratch, "l.pickle")
             l.save(f, compress=gz)
@@ -109,7 +114,7 @@ def case(arg):
     try:
         for chan in CHANNELS:
             try:
-                c = restore(kn, l, chan, scratch)
+                c = restore(kn, l, chan, scratch, variant=seed)
             except (pickle.PicklingError, AttributeError, TypeError) as e:
                 if chan == "pickle":
                     continue  # lambdas / closures (curvature loss, lambda functions) need cloudpickle: not a learner matter
@@ -162,6 +167,46 @@ def case(arg):
     return res
 
 
+def integ_case(arg):
+    """IntegratorLearner: restore at EVERY moment without pending points of a long run (the queue of forced splits and
+    the stack are part of what a restore must carry over)"""
+    seed, npts = arg
+    import math
+    import adaptive
+    rng = random.Random(seed)
+    fk = rng.choice(["sqrt", "step", "peak", "smooth"])
+    f = {"sqrt": lambda x: math.sqrt(abs(x - 0.3)), "step": lambda x: 1.0 if x > 0.3 else 0.0,
+         "peak": lambda x: 1 / (1e-3 + (x - 0.1) ** 2), "smooth": lambda x: math.exp(-3 * x * x)}[fk]
+    l = adaptive.IntegratorLearner(f, bounds=(-1.0, 1.0), tol=1e-9)
+    res = {"kind": "integ-run:" + fk, "seed": seed, "nops": npts, "fail": None, "channels": 0}
+    try:
+        while l.npoints < npts and not l.done():
+            pts, _ = l.ask(rng.choice([1, 2, 3, 5, 8, 17]))
+            rng.shuffle(pts)
+            for x in pts:
+                l.tell(x, f(x))
+            if l.pending_points:
+                continue
+            for chan in ("pickle", "copy_from"):
+                if chan == "pickle":
+                    c = pickle.loads(pickle.dumps(l)) if fk == "never" else cloudpickle.loads(cloudpickle.dumps(l))
+                else:
+                    c = l.new()
+                    c.copy_from(_clone(l))
+                res["channels"] += 1
+                if L.canon(dict(c.data)) != L.canon(dict(l.data)):
+                    res["fail"] = ("data_lost", f"[integ] {chan} after {l.npoints} points: data differs")
+                    return res
+                for n in (1, 4, 12):
+                    pa, pb = _clone(l).ask(n, tell_pending=False), _clone(c).ask(n, tell_pending=False)
+                    if L.canon(pa) != L.canon(pb):
+                        res["fail"] = ("suggestions_differ", f"[integ, {fk}] {chan} after {l.npoints} points: ask({n}) {pa[0][:4]} vs restored {pb[0][:4]}")
+                        return res
+    except Exception as e:
+        res["aborted"] = type(e).__name__
+    return res
+
+
 def run(ctx):
     proof = core.prove(MODULES, leanchecker=ctx.thorough)
     core.OUT.mkdir(exist_ok=True)
@@ -169,6 +214,7 @@ def run(ctx):
     try:
         args = [(kn, ctx.rng.randrange(1 << 30), ctx.n(30, 70), root) for kn in KINDS for _ in range(ctx.n(10, 200))]
         results = core.pmap(case, args)
+        results += core.pmap(integ_case, [(ctx.rng.randrange(1 << 30), ctx.n(180, 400)) for _ in range(ctx.n(16, 200))])
     finally:
         shutil.rmtree(root, ignore_errors=True)
     failures, dist, aborted = [], {}, {}
@@ -205,6 +251,9 @@ def run(ctx):
 def replay(ctx, path):
     d = json.load(open(path)).get("replay")
     core.OUT.mkdir(exist_ok=True)
-    r = case((d["kind"], d["seed"], d["nops"], str(core.OUT)))
+    if d["kind"].startswith("integ-run"):
+        r = integ_case((d["seed"], d["nops"]))
+    else:
+        r = case((d["kind"], d["seed"], d["nops"], str(core.OUT)))
     print(r)
     return 1 if r["fail"] else 0
